@@ -22,8 +22,27 @@ def profiles(tier):
     ]
 
 
+def agent_loop_b3(out, wd):
+    """AgentLoop.tla: the agent task's dirty-item / writer hand-back mechanism never silences a lane (B3), with
+    the defect F11 as negative control (the invariant must fail for the unrepaired mechanism)."""
+    res = {}
+    for keep in (True, False):
+        c = core.cfg(spec="Spec", constants={"Items": {"a", "b"}, "MaxData": 4, "KeepWriterOnNoData": keep},
+                     invariants=["NoWriterLost", "PendingIsDirty"], properties=["EverythingWritten"])
+        r = core.run_tlc("AgentLoop", c, os.path.join(wd, "agentloop_%s" % keep), workers=2, timeout=600)
+        res[keep] = r
+    if not res[True].ok:
+        raise core.ToolError("AgentLoop.tla (repaired mechanism) violates %s" % res[True].violated)
+    if res[False].ok:
+        raise core.ToolError("AgentLoop.tla negative control (F11) was not detected - the invariant is vacuous")
+    out.add(states=res[True].distinct, transitions=res[True].generated)
+    core.log("[C04] AgentLoop.tla: %d states, NoWriterLost / PendingIsDirty / EverythingWritten hold; F11 negative control refuted (%s)" % (
+        res[True].distinct, res[False].violated))
+
+
 def run(tier, out):
     wd = core.workdir("C04")
+    agent_loop_b3(out, wd)
     core.build_harness("h_runtime", "e2e")
     tot_cases = tot_events = 0
     for pi, p in enumerate(profiles(tier)):
